@@ -524,6 +524,71 @@ class E2ESpec(Spec):
                 'nontrivial': nontrivial}
 
 
+class SharedOptSpec(E2ESpec):
+    """the doctests of one run share the default options (one dict handed to every RuntimeState, as under the native runner and
+    pytest): what doctest A switches on or off with block directives lasts to the end of A - doctest B, run afterwards under
+    the same options object, behaves as the model says for B alone, and the options object is unchanged"""
+    title = 'block directives of one doctest vs the next doctest under the same default options'
+
+    def __init__(self, name, len_a=2, len_b=2, cost=3):
+        E2ESpec.__init__(self, len_a, cost, name, alphabet=SUB_ALPHABET, with_opts=False)
+        self.len_b = len_b
+        self.rule = ('default option in %r (or none) x doctest A = history of <= %d events (cost <= %d) ending with a block directive x '
+                     'doctest B = every history of <= %d events of one-line statements (with / without inline directive, wrong want); '
+                     'B is judged against the model of B alone; non-trivial = all' % (OPTIONS, len_a, cost, len_b))
+
+    def final(self, S, hist):
+        return hist[-1][0] in ('block', 'blockb')
+
+    def b_histories(self):
+        stm = [ev for ev in SUB_ALPHABET if ev[0] == 'stmt']
+        out = [(a,) for a in stm]
+        if self.len_b >= 2:
+            out += [(a, b) for a in stm[:6] for b in stm]
+        return out
+
+    def run_case(self, hist):
+        import copy
+        from xdoctest.doctest_example import DocTest, DoctestConfig
+        atoms = []
+        n = 0
+        case = None
+        ma = self.model(hist)
+        for opt in [None] + list(OPTIONS):
+            for hb in self.b_histories():
+                mb = self.model(((('opt', opt),) if opt else ()) + tuple(hb))
+                if mb['unspec']:
+                    continue
+                ns = {'options': (opt or '').lower(), 'offset_linenos': False, 'colored': False, 'reportchoice': 'udiff',
+                      'global_exec': None, 'supress_import_errors': False, 'verbose': 0}
+                config = DoctestConfig()._populate_from_cli(ns)
+                shared = config['default_runtime_state']
+                before = copy.deepcopy(dict(shared))
+                res = []
+                for text in (ma['text'], mb['text']):
+                    r = harness.run_doctest(text, config=config)
+                    res.append(r)
+                n += 1
+                rb = res[1]
+                got_v = 'raised' if rb.raised is not None else harness.verdict_of(rb.summary)
+                exp_v = mb['verdict'][0] if isinstance(mb['verdict'], tuple) else mb['verdict']
+                if rb.trace != mb['trace'] or got_v != exp_v:
+                    atoms.append({'sig': 'shared-options:next-doctest-affected',
+                                  'msg': 'options %r; after the doctest\n%s\nthe doctest\n%s\nexecuted %r and is %s; alone the model says %r and %s' % (
+                                      opt, ma['text'], mb['text'], rb.trace, got_v, mb['trace'], exp_v)})
+                    case = case or {'A': ma['text'], 'B': mb['text'], 'options': opt}
+                if dict(shared) != before:
+                    atoms.append({'sig': 'shared-options:default-options-rewritten', 'msg': 'options %r: %r -> %r' % (opt, before, dict(shared))})
+                    case = case or {'A': ma['text'], 'B': mb['text'], 'options': opt}
+        seen = set()
+        uniq = []
+        for a in atoms:
+            if a['sig'] not in seen:
+                seen.add(a['sig'])
+                uniq.append(a)
+        return {'atoms': uniq, 'outcome': 'ok' if not uniq else 'bad', 'case': case or {'A': ma['text']}, 'nontrivial': 1, 'n': n}
+
+
 SPELLINGS = ['# doctest:', '# xdoc:', '# XDOCTEST:', '# Doctest:', '# xDoc:', '#xdoctest:', '#  DOC:', '# xdoctest:  ']
 
 
@@ -777,6 +842,6 @@ def specs(tier):
         return [UnitSpec(), ReqCondSpec(), E2ESpec(2, 99, 'e2e-len2'), E2ESpec(3, 5, 'e2e-len3'),
                 E2ESpec(4, 3, 'e2e-len4'),
                 E2ESpec(5, 5, 'e2e-sub5', alphabet=SUB_ALPHABET, with_opts=False), PluginSpec(3, 4, 'plugin-len3'),
-                SpellingSpec(3, 4, 'spelling-len3')]
+                SpellingSpec(3, 4, 'spelling-len3'), SharedOptSpec('shared-options', 3, 2, 4)]
     return [UnitSpec(), ReqCondSpec(), E2ESpec(2, 99, 'e2e-len2'), E2ESpec(3, 3, 'e2e-len3'), PluginSpec(3, 2, 'plugin-len3'),
-            SpellingSpec(3, 2, 'spelling-len3')]
+            SpellingSpec(3, 2, 'spelling-len3'), SharedOptSpec('shared-options', 2, 1, 3)]
